@@ -488,8 +488,14 @@ type VerifLexSession struct {
 //	multiStmts: namespace supportMultiQuery is true and the client capability
 //	            has mysql.ClientMultiStatements, so handleQuery uses doMultiStmts
 func VerifLexNewSession(readOnly, rwSplit, multiStmts bool) *VerifLexSession {
+	return verifLexNewSessionOf(verifLexNamespaceConfig(readOnly, rwSplit, multiStmts))
+}
+
+// verifLexNewSessionOf creates the session for a namespace configuration made
+// by verifLexNamespaceConfig (possibly with shard rules added).
+func verifLexNewSessionOf(cfg *models.Namespace) *VerifLexSession {
 	evlog := &verifLexLog{}
-	cfg := verifLexNamespaceConfig(readOnly, rwSplit, multiStmts)
+	multiStmts := cfg.SupportMultiQuery
 	ns, err := verifLexBuildNamespace(cfg, evlog)
 	if err != nil {
 		panic("verif: build namespace: " + err.Error())
